@@ -913,9 +913,8 @@ func (s *supSim) randomAPI() {
 	if k == 3 && s.cfg.Kind != "sofo" && s.staleExit(name) && !g.Chance(1, 10) {
 		return // keep the main sweep mostly out of the listed region D26
 	}
-	if k <= 3 && s.stopAllPending && !g.Chance(1, 10) {
-		return // keep the main sweep mostly out of the listed region D27
-	}
+	// (calls made while a one-for-one supervisor is stopping all its children — the former D27 region — are part of
+	// the sweep: they must be refused)
 	switch k {
 	case 0, 1:
 		s.api("start", name, g.Intn(3))
@@ -1094,7 +1093,7 @@ func supWitnesses(c *Ctx) ([]supSeq, []supSeq) {
 		s.checkSettled()
 		add("D26-"+kind, s)
 	}
-	// D27: one-for-one accepts StartChild while it is stopping all children
+	// D27 (repaired): one-for-one used to accept StartChild while it was stopping all children; kept as a directed episode
 	{
 		s := newSupSim(c, c.Rng.Fork(), supCfg{Kind: "ofo", Strategy: 1, K: 5, Period: 5, DAS: true, Children: []supChildIn{{1, false}, {2, false}, {3, true}}})
 		s.initRun()
